@@ -29,6 +29,7 @@ import (
 	"github.com/nspcc-dev/neo-go/pkg/neotest"
 	"github.com/nspcc-dev/neo-go/pkg/smartcontract"
 	"github.com/nspcc-dev/neo-go/pkg/vm/emit"
+	"github.com/nspcc-dev/neo-go/pkg/vm/opcode"
 	"github.com/nspcc-dev/neo-go/verifharness/vlib/ev"
 	"github.com/nspcc-dev/neo-go/verifharness/vlib/rng"
 	"github.com/nspcc-dev/neo-go/verifharness/vlib/vchain"
@@ -804,6 +805,103 @@ func resetValidatedRun(t *testing.T, run *ev.Run, idx, nblocks int) {
 	_ = rep.Store.RealClose()
 }
 
+// resetConflictsRun: blocks above the reset target carry transactions whose
+// Conflicts attributes name a transaction V that was never mined (one signed by
+// V's own signer, one by another account). On the full chain V is invalid; a
+// node that only ever synchronised to the target knows nothing of those blocks
+// and accepts V - so must the reset node: the alternative continuation starts
+// with a block containing V.
+func resetConflictsRun(t *testing.T, run *ev.Run, idx, nblocks int) {
+	proto := func(c *config.Blockchain) { vchain.AllForks(c); c.MaxTraceableBlocks = 1000 }
+	w := vchain.DefaultWeights
+	w.Block = 0 // the accounts used below must stay unblocked
+	p := vchain.NewProducer(t, vchain.ProducerConfig{Proto: proto, Users: 6, W: w, Observe: true, Stream: uint64(idx) + 960, TolerateReject: true})
+	defer p.Close()
+	r := rng.New(uint64(idx)*13 + 17)
+	for len(p.Raw) < nblocks/2 && p.Rejected == nil {
+		p.Step()
+	}
+	target := len(p.Raw)
+	mk := func(u *vchain.User, nonce uint32, push byte, attrs ...transaction.Attribute) *transaction.Transaction {
+		tx := transaction.New([]byte{push}, 100_0000)
+		tx.Nonce = nonce
+		tx.ValidUntilBlock = uint32(target) + 100
+		tx.Signers = []transaction.Signer{{Account: u.Hash(), Scopes: transaction.CalledByEntry}}
+		tx.Attributes = attrs
+		neotest.AddNetworkFee(t, p.BC, tx, u.S)
+		// fee policy differs between the tip (where this is computed) and the reset
+		// target (where the continuation is verified): pay generously
+		tx.NetworkFee = tx.NetworkFee*8 + 5000_0000
+		tx.SystemFee = 1000_0000
+		if err := u.S.SignTx(p.BC.GetConfig().Magic, tx); err != nil {
+			t.Fatal(err)
+		}
+		return tx
+	}
+	ua, ub := p.Users[idx%3], p.Users[3+idx%3]
+	victim := mk(ua, uint32(0x6a000000+idx), byte(opcode.PUSH1))
+	conf := transaction.Attribute{Type: transaction.ConflictsT, Value: &transaction.Conflicts{Hash: victim.Hash()}}
+	order := [][2]*vchain.User{{ua, ub}, {ub, ua}, {ua, ua}}[idx%3]
+	for k, u := range order {
+		if p.AddBlock(mk(u, uint32(0x6b000000+idx*4+k), byte(opcode.PUSH2), conf)) == nil {
+			break
+		}
+		if r.Intn(2) == 0 {
+			p.Step()
+		}
+	}
+	for len(p.Raw) < nblocks && p.Rejected == nil {
+		p.Step()
+	}
+	if p.Rejected != nil {
+		run.Violation("producer-rejected-own-block", fmt.Sprint("run", idx), p.Rejected.Error(), nil)
+		return
+	}
+	id := fmt.Sprintf("reset-conflicts%d/from%d/to%d", idx, len(p.Raw), target)
+	if !run.Want(id) {
+		return
+	}
+	if err := p.BC.VerifyTx(victim); err == nil {
+		t.Fatalf("%s: the victim is valid on the full chain", id)
+	}
+	h := &vchain.History{Idx: idx, Proto: proto, PName: "all-forks", P: p}
+	_, rep, err := record(t, h, proto, uint64(idx)*13+18, len(p.Raw))
+	if err != nil {
+		run.Violation("reset:recording-node-failed", id, err.Error(), nil)
+		return
+	}
+	rep.BC.Close()
+	bc, _, _, err := vchain.OpenChainNoRun(t, false, proto, rep.Store)
+	if err != nil {
+		run.Violation("reset:reopen-before-reset-failed", id, err.Error(), nil)
+		return
+	}
+	var rerr error
+	func() {
+		defer func() {
+			if x := recover(); x != nil {
+				rerr = fmt.Errorf("panic: %v", x)
+			}
+		}()
+		rerr = bc.Reset(uint32(target))
+	}()
+	run.Case(id, true)
+	if rerr != nil {
+		run.Violation("reset:uninterrupted-reset-failed", id, rerr.Error(), nil)
+		_ = rep.Store.RealClose()
+		return
+	}
+	run.Obs("resets_below_blocks_with_conflicts_attributes", 1)
+	// the continuation: one more conflicting transaction of a third account (it
+	// cannot harm the victim, but rewrites the shared conflict stub), then the victim
+	third := mk(p.Users[(idx+1)%3], uint32(0x6c000000+idx), byte(opcode.PUSH3), conf)
+	if third.Signers[0].Account == ua.Hash() {
+		third = mk(p.Users[(idx+2)%3], uint32(0x6c000000+idx), byte(opcode.PUSH3), conf)
+	}
+	forkCheck(t, run, h, proto, rep.Store.Inner, target, id+"/fork", []*transaction.Transaction{third}, []*transaction.Transaction{victim})
+	_ = rep.Store.RealClose()
+}
+
 func checkResetPrefix(t *testing.T, run *ev.Run, h *vchain.History, cfg func(*config.Blockchain), content map[string][]byte, backend string, target int, final map[string][]byte) *outcome {
 	stage := stageName(content)
 	rep, dir, err := reopen(t, content, backend, cfg)
@@ -875,7 +973,7 @@ func checkResetPrefix(t *testing.T, run *ev.Run, h *vchain.History, cfg func(*co
 
 // forkCheck feeds the reset node and a fresh node synced to target the same
 // alternative continuation and compares them at every height.
-func forkCheck(t *testing.T, run *ev.Run, h *vchain.History, cfg func(*config.Blockchain), resetStore storage.Store, target int, id string) {
+func forkCheck(t *testing.T, run *ev.Run, h *vchain.History, cfg func(*config.Blockchain), resetStore storage.Store, target int, id string, extra ...[]*transaction.Transaction) {
 	if !run.Want(id) {
 		return
 	}
@@ -907,6 +1005,9 @@ func forkCheck(t *testing.T, run *ev.Run, h *vchain.History, cfg func(*config.Bl
 		var txs []*transaction.Transaction
 		for j := 0; j <= n%3; j++ {
 			txs = append(txs, e.NewTx(t, []neotest.Signer{h.P.Val}, h.P.GasH, "transfer", h.P.Val.ScriptHash(), h.P.Users[(n+j)%len(h.P.Users)].Hash(), int64(1000+n*7+j), nil))
+		}
+		if n < len(extra) {
+			txs = append(txs, extra[n]...)
 		}
 		blk := e.NewUnsignedBlock(t, txs...)
 		e.SignBlock(blk)
@@ -1121,6 +1222,9 @@ func TestCheck(t *testing.T) {
 		}
 		for i := 0; i < ev.Pick(4, 40); i++ {
 			resetValidatedRun(t, run, 470+i, ev.Pick(24, 50))
+		}
+		for i := 0; i < ev.Pick(3, 30); i++ {
+			resetConflictsRun(t, run, 520+i, ev.Pick(20, 40))
 		}
 	}
 	if do("page") {
